@@ -6,6 +6,8 @@ while read -r id n; do
   i=$((i+1)); [ $(( i % nl )) -ne $(( lane % nl )) ] && continue
   out=${SEED_DIR:-/tmp/seed}/results/$id-$n.txt
   [ -s "$out" ] && grep -q "^DONE" "$out" && continue
+  # claimed by another lane (a stale claim has to be removed by hand)
+  if [ "${CLAIM:-0}" = 1 ]; then ( set -o noclobber; : > "$out.claim" ) 2>/dev/null || continue; fi
   { echo "=== $id patch$n"; SEED_DIR=${SEED_DIR:-/tmp/seed} /verif/tools/confirm_seed.sh "$id" "$n" 2>&1 | tail -8
     if [ "$mode" = all ]; then cs="$id $(echo $ALL | sed "s/$id//")";
     elif [ "$mode" = group ]; then
